@@ -31,7 +31,7 @@ META = dict(
 
 
 def bounds(tier):
-    return dict(ks=2 if tier == "quick" else 3, it=2 if tier == "quick" else 3)
+    return dict(ks=2, it=2 if tier == "quick" else 3)
 
 
 def jobs(tier):
@@ -45,11 +45,11 @@ def jobs(tier):
             js.append(dict(kind="prem", mode=0, large=large, ks=2))
             js.append(dict(kind="prem", mode=1, large=large, ks=1, it=2))
         else:
-            for i in range(12):
-                js.append(dict(kind="prem", mode=0, large=large, ks=3, shard=[i, 12, 16]))
-            for i in range(8):
-                js.append(dict(kind="prem", mode=1, large=large, ks=2, it=2, shard=[i, 8, 16]))
+            js.append(dict(kind="prem", mode=0, large=large, ks=2))
+            js.append(dict(kind="prem", mode=1, large=large, ks=1, it=2))
             js.append(dict(kind="prem", mode=1, large=large, ks=1, it=3))
+            for i in range(6):
+                js.append(dict(kind="prem", mode=1, large=large, ks=2, it=2, shard=[i, 6, 40]))
     return js
 
 
